@@ -34,6 +34,8 @@ def run_one(d):
             return name, "MUTANT-DOES-NOT-COMPILE", b.stderr.strip()[:300]
         out_dir = tempfile.mkdtemp(prefix="gvc-mut-smt-")
         args = [os.path.join(VERIF, "bin", "gvc"), cmd[0], "-repo", wt]
+        if cmd[0] == "check":
+            args += ["-verif", tempfile.mkdtemp(prefix="gvc-mut-verif-")]
         if cmd[0] in ("olayer", "verify"):
             args += ["-out", out_dir]
         args += cmd[1:]
